@@ -66,6 +66,14 @@ def check(run, prog, tier):
         elif r.get("k") == "Bin" and r.get("op") == "-" and const_val(r["L"]) == SIZE and fld(r["R"], "message_consumer"):
             good = ge
             why.append("SIZE-consumer under consumer>=producer: %s" % ge)
+        elif any(op == ">" and strip(l).get("n") == "length" and show(strip(rr)) == show(r) for op, l, rr in g):
+            # `if (length > E) length = E;` only shortens a chunk that was contiguous already
+            good = True
+            why.append("clamp `%s` under length > %s: a shorter prefix of the contiguous chunk" % (show(n), show(r)))
+        elif const_val(r) == 1 and fm.reach_avoiding([fm.entry], lambda blk, t=b.id: blk.id == t, avoid_blocks={b2.id for b2, i2, n2 in lens if strip(n2["R"]).get("k") == "Bin" and b2.id != b.id}) is None:
+            # one byte of a non-empty ring (the loop runs while message_length != 0; both field-level forms are >= 1)
+            good = True
+            why.append("`%s`: a single byte of the non-empty ring" % show(n))
         else:
             good = True
             unrec = True
